@@ -18,7 +18,7 @@ BOUNDS = {"quick": "8 exception-class shapes x 4 argument shapes (free 64-bit in
 EXPECT_COVERS = ["cls:registered", "cls:fallback", "uri:registered", "uri:runtime_error", "uri:carried", "e2e"]
 BUDGET = {"quick": dict(wall_s=200, max_paths=20000, diff_samples=4), "thorough": dict(wall_s=1200)}
 
-SHAPES = ["apperror", "decorated", "defined", "undefined", "ctor-arity", "ctor-raises", "apperror-subclass-own-uri", "decorated-kwargs"]
+SHAPES = ["apperror", "decorated", "defined", "undefined", "ctor-arity", "ctor-raises", "apperror-subclass-own-uri", "decorated-kwargs", "derived-own-uri", "derived-unregistered"]
 ARGS = ["none", "one", "two", "str"]
 KW = ["none", "k", "kk"]
 
@@ -56,7 +56,14 @@ def _classes():
         def __init__(self, *a, **k):
             Exception.__init__(self, *a)
             self.kwargs = k
-    return dict(Decorated=Decorated, Defined=Defined, Undefined=Undefined, CtorArity=CtorArity, CtorRaises=CtorRaises, Family=Family, DecKw=DecKw)
+    # exception classes in an inheritance relation: each class has ITS registration (or none), whatever its bases have
+    class Derived(Defined):
+        pass
+
+    class DerivedUnregistered(Decorated):
+        pass
+    return dict(Decorated=Decorated, Defined=Defined, Undefined=Undefined, CtorArity=CtorArity, CtorRaises=CtorRaises, Family=Family, DecKw=DecKw,
+                Derived=Derived, DerivedUnregistered=DerivedUnregistered)
 
 
 def _register(s, C):
@@ -66,6 +73,7 @@ def _register(s, C):
     s.define(C["CtorRaises"], "com.myapp.error.ctorraises")
     s.define(C["Family"])
     s.define(C["DecKw"])
+    s.define(C["Derived"], "com.myapp.error.derived")          # after its base class
 
 
 def _make(sx, C, shape, ash, ksh):
@@ -83,7 +91,8 @@ def _make(sx, C, shape, ash, ksh):
         return C["DecKw"](*a, **k), "com.myapp.error.deckw", a, k, C["DecKw"]
     cls, uri = {"decorated": (C["Decorated"], "com.myapp.error.decorated"), "defined": (C["Defined"], "com.myapp.error.defined"),
                 "undefined": (C["Undefined"], "wamp.error.runtime_error"), "ctor-arity": (C["CtorArity"], "com.myapp.error.arity"),
-                "ctor-raises": (C["CtorRaises"], "com.myapp.error.ctorraises")}[shape]
+                "ctor-raises": (C["CtorRaises"], "com.myapp.error.ctorraises"), "derived-own-uri": (C["Derived"], "com.myapp.error.derived"),
+                "derived-unregistered": (C["DerivedUnregistered"], "wamp.error.runtime_error")}[shape]
     if shape == "ctor-arity":
         e = cls(1, 2)
         e.args = tuple(a)        # raised with a different number of arguments than the constructor takes
@@ -92,7 +101,7 @@ def _make(sx, C, shape, ash, ksh):
         e.args = tuple(a)
     else:
         e = cls(*a)
-    return e, uri, a, {}, (cls if shape != "undefined" else None)
+    return e, uri, a, {}, (cls if shape not in ("undefined", "derived-unregistered") else None)
 
 
 def direct(sx, shape, ash, ksh, tb):
@@ -113,7 +122,7 @@ def direct(sx, shape, ash, ksh, tb):
         sx.fail("_message_from_exception-raised", info=dict(info, exc=repr(x)))
         return ["exc"]
     sx.check(m.error == uri, "error-uri-on-the-wire", info=dict(info, got=m.error, want=uri))
-    sx.cover("uri:carried" if shape.startswith("apperror") else ("uri:runtime_error" if shape == "undefined" else "uri:registered"))
+    sx.cover("uri:carried" if shape.startswith("apperror") else ("uri:runtime_error" if shape in ("undefined", "derived-unregistered") else "uri:registered"))
     wire = m.marshal()
     m2 = message.Error.parse(wire)
     want_k = dict(k)
@@ -134,6 +143,8 @@ def direct(sx, shape, ash, ksh, tb):
     else:
         sx.check(len(exc.args) == len(a) and bool(sx.And(*[x == y for x, y in zip(exc.args, a)]) if a else True), "caller-sees-the-args", info=info)
     constructible = dict(decorated=not want_k, defined=not want_k, undefined=False, apperror=True)
+    constructible["derived-own-uri"] = not want_k
+    constructible["derived-unregistered"] = False
     if shape == "ctor-arity":
         constructible[shape] = (len(a) == 2 and not want_k)
     if shape == "ctor-raises":
